@@ -28,7 +28,7 @@ ArgVariants(sig) ==
 ParamsOf(sig) == [j \in 1..Len(sig) |-> Param("p" \o ToString(j), sig[j].ty, IF sig[j].d THEN Lit(sig[j].ty) ELSE Absent)]
 CArgsOf(sig)  == [j \in 1..Len(sig) |-> CArg("p" \o ToString(j), TRUE, TRUE, sig[j].ty, IF sig[j].d THEN Lit(sig[j].ty) ELSE Absent)]
 ArgEs(args, form) == [j \in 1..Len(args) |-> AtomE(NT(args[j], FALSE), form)]
-ArgSetup(args, form) == IF form = "lit" THEN <<>>
+ArgSetup(args, form) == IF form \in {"lit", "ife", "neg", "grp"} THEN <<>>
                         ELSE LET S == {args[j] : j \in 1..Len(args)} IN
                              [j \in 1..Cardinality(S) |-> VarSetup(NT((CHOOSE f \in [1..Cardinality(S) -> S] : \A a, b \in 1..Cardinality(S) : a # b => f[a] # f[b])[j], FALSE))]
 
@@ -46,7 +46,7 @@ CallProbes ==
     UNION { { Probe("call", <<Fun("f", ParamsOf(sig), "Int", <<>>, <<Expr(IntL(7))>>), IdFun("Int")>>,
             ArgSetup(args, form), UseOf(Call("f", ArgEs(args, form)), "Int", use), CallOK(sig, args),
             [sig |-> sig, args |-> args, use |-> use, form |-> form])
-      : args \in ArgVariants(sig), use \in {"stmt", "init", "arg"}, form \in {"lit", "var"} } : sig \in Sigs }
+      : args \in ArgVariants(sig), use \in {"stmt", "init", "arg"}, form \in {"lit", "var", "ife", "neg", "grp"} } : sig \in Sigs }
   \cup  \* the result used at another type
     { Probe("call-result", <<Fun("f", <<>>, rt, <<>>, <<Expr(Lit(rt))>>)>>, <<>>, <<Def("r", TRUE, u, Call("f", <<>>))>>,
             InitOK(u, rt), [ret |-> rt, used_as |-> u])
